@@ -532,6 +532,12 @@ def uniq(ctx):
         ok = True
     for node, env in pm.find('if %s is not None:\n    _V = [_M.find_metaclass(%s)]\nelse:\n    _V = _M.metaclasses.values()' % (kp, kp), fn):
         ok = True
+    for n_ in ast.walk(fn):
+        if isinstance(n_, ast.IfExp) and (
+                pm.match('_M.metaclasses.values() if %s is None else [_M.find_metaclass(%s)]' % (kp, kp), n_) is not None or
+                pm.match('[_M.find_metaclass(%s)] if %s is not None else _M.metaclasses.values()' % (kp, kp), n_) is not None or
+                pm.match('[_M.find_metaclass(%s)] if %s else _M.metaclasses.values()' % (kp, kp), n_) is not None):
+            ok = True
     r.check(ok, 'restriction: all metaclasses when no kind is given, exactly the named one otherwise', fn, construct=QQ,
             key='kind-filter', msg='the kind restriction is not `all metaclasses if kind is None else [find_metaclass(kind)]`')
     rets = [n for n in ast.walk(fn) if isinstance(n, ast.Return)]
